@@ -118,3 +118,111 @@ def prep_manifest_post(S, I, variant):
     S.holds("a phantom batch is appended iff cards are missing", biff(icmp("==", nb, iadd(B, 1)), icmp("<", total, max_cards)))
     tabcol = m2.cols["Tabulator Number" if vendor == "Dominion" else "Tabulator"]
     S.holds("the appended batch is the phantom batch", bimp(icmp("<", total, max_cards), bterm(I.equal(tabcol.at_checked(-1), "phantom"))))
+
+
+# ------------------------------------------------------------------ C19: Dominion.read_cvrs (structure-bounded JSON, symbolic leaves)
+
+def _marks(S, tag, cands):
+    out = []
+    for i, cand in enumerate(cands):
+        out.append({"CandidateId": cand, "Rank": S.integer(f"{tag}.rank{i}", lo=0), "IsVote": S.boolean(f"{tag}.isvote{i}")})
+    return out
+
+
+def _oracle_contest(marks, enforce):
+    """property text: per candidate the smallest positive rank among its counted marks (first counted mark's rank if none is positive)"""
+    out = {}
+    for cand in (5, 6):
+        mine = [m for m in marks if m["CandidateId"] == cand]
+        if not mine:
+            continue
+        counted = [bor(bterm(m["IsVote"]), bnot(enforce)) for m in mine]
+        present = bor(*counted)
+        val = None
+        for m, c_ in reversed(list(zip(mine, counted))):
+            val = m["Rank"] if val is None else mkint(iite(c_, m["Rank"], val))       # first counted mark's rank
+        anypos = bor(*[band(c_, icmp(">", m["Rank"], 0)) for m, c_ in zip(mine, counted)])
+        best, have = 0, False
+        for m, c_ in zip(mine, counted):
+            ok = band(c_, icmp(">", m["Rank"], 0))
+            best = mkint(iite(band(ok, bor(bnot(have), icmp("<", m["Rank"], best))), m["Rank"], best))
+            have = bor(have, ok)
+        out[str(cand)] = (present, mkint(iite(anypos, best, val)))
+    return out
+
+
+def _session(layout, mod, orig_cons, mod_cons, group, rid="X"):
+    def block(cons):
+        if layout == "cards":
+            return {"Cards": [{"Contests": cons[:1]}, {"Contests": cons[1:]}]}
+        return {"Contests": cons}
+    sess = {"TabulatorId": 3, "BatchId": 7, "RecordId": rid, "CountingGroupId": group,
+            "ImageMask": "D:\\NAS\\Tabulator00003\\Batch007\\Images\\00003_00007_000123*.*"}
+    if mod == "first":
+        sess["Modified"] = block(mod_cons)
+    sess["Original"] = block(orig_cons)
+    if mod == "second":
+        sess["Modified"] = block(mod_cons)
+    return sess
+
+
+@script(["C19"], "Dominion.read_cvrs/marks+adjudication (bounded: 1 session, 2 contests, <= 3 marks; symbolic ranks, IsVote, options)",
+        variants=tuple((lay, mod, pat) for lay in ("cards", "flat") for mod in ("none", "first", "second") for pat in ("555", "565")))
+def dominion_read_cvrs_marks(S, I, variant):
+    layout, mod, pat = variant
+    c = ctx()
+    enforce = S.boolean("enforce_rules")
+    use_current = S.boolean("use_current")
+    m_orig_10 = _marks(S, "orig10", [int(ch) for ch in pat])
+    m_orig_11 = _marks(S, "orig11", [6])
+    m_mod_10 = _marks(S, "mod10", [5, 5] if pat == "555" else [6, 5])
+    sess = _session(layout, mod, [{"Id": 10, "Marks": m_orig_10}, {"Id": 11, "Marks": m_orig_11}], [{"Id": 10, "Marks": m_mod_10}], 1)
+    I.files = {"export.json": {"Sessions": [sess]}}
+    fn = I.get(DOM, "Dominion.read_cvrs")
+    r, exc = guard(S, I, lambda: I.call(fn, ["export.json"], {"use_current": use_current, "enforce_rules": enforce}))
+    if exc:
+        return
+    S.holds("one record for the session", len(r) == 1)
+    if len(r) != 1:
+        return
+    cvr = r[0]
+    S.holds("identifier and tally pool derived from tabulator, batch and record number (obfuscated id resolved)",
+            cvr.attrs["id"] == "3-7-123" and cvr.attrs["tally_pool"] == "3-7")
+    en = bterm(enforce)
+    uc = c.decide(bterm(use_current))
+    exp = {"10": _oracle_contest(m_mod_10 if (uc and mod != "none") else m_orig_10, en), "11": _oracle_contest(m_orig_11, en)}
+    votes = cvr.attrs["votes"]
+    S.holds("contests of the record", sorted(votes.keys()) == ["10", "11"])
+    for cid in ("10", "11"):
+        got = votes.get(cid, {})
+        for cand, (present, val) in exp[cid].items():
+            has = cand in got
+            S.holds(f"[{cid}/{cand}] candidate recorded iff it has a counted mark", biff(has, present))
+            if has:
+                S.holds(f"[{cid}/{cand}] value = smallest positive rank among counted marks (adjudicated data replace original ones)",
+                        bterm(I.equal(got[cand], val)))
+        S.holds(f"[{cid}] no other candidates", set(got.keys()) <= set(exp[cid].keys()))
+
+
+@script(["C19"], "Dominion.read_cvrs/sessions+groups (bounded: 2 sessions; symbolic counting groups and options)")
+def dominion_read_cvrs_groups(S, I, variant):
+    g = [S.choose(f"group{i}", [1, 2]) for i in range(2)]
+    inc = S.choose("include_groups", [[], [1], [2]])
+    pool = S.choose("pool_groups", [[], [2], [1, 2]])
+    sessions = []
+    for i in range(2):
+        s_ = _session("flat", "none", [{"Id": 10, "Marks": [{"CandidateId": 5, "Rank": 1, "IsVote": True}]}], [], g[i], rid=100 + i)
+        s_["BatchId"] = 7 + i
+        sessions.append(s_)
+    I.files = {"export.json": {"Sessions": sessions}}
+    fn = I.get(DOM, "Dominion.read_cvrs")
+    r, exc = guard(S, I, lambda: I.call(fn, ["export.json"], {"include_groups": inc, "pool_groups": pool}))
+    if exc:
+        return
+    keep = [i for i in range(2) if (not inc) or g[i] in inc]
+    S.holds("exactly one record per session of the included counting groups, in file order",
+            [cv.attrs["id"] for cv in r] == [f"3-{7 + i}-{100 + i}" for i in keep])
+    if len(r) == len(keep):
+        for cv, i in zip(r, keep):
+            S.holds(f"[session {i}] tally pool = tabulator-batch", cv.attrs["tally_pool"] == f"3-{7 + i}")
+            S.holds(f"[session {i}] pooled exactly when its counting group is designated for pooling", I.equal(cv.attrs["pool"], g[i] in pool) is True)
